@@ -185,21 +185,50 @@ pub trait Case: Clone + std::fmt::Debug + Serialize + DeserializeOwned + Send + 
 }
 
 /// Deterministic choice tape: all generators decode a `Vec<u16>` produced by proptest.
+///
+/// proptest draws tapes of every length up to the per-check maximum, so most tapes end before a
+/// large case is fully decoded. Past its end a tape continues with a splitmix64 stream seeded by a
+/// hash of its own contents: the decoded case stays a pure function of the proptest value (replay and
+/// shrinking of the tape still work, structural minimisation does the rest), and long lists /
+/// histories are random to their end instead of degenerating into "always the first choice".
 pub struct Tape<'a> {
     d: &'a [u16],
     i: usize,
+    /// Some(state) = continuation stream; None = zero-filled (only `zero_filled`)
+    ext: Option<u64>,
 }
 
 impl<'a> Tape<'a> {
     pub fn new(d: &'a [u16]) -> Self {
-        Tape { d, i: 0 }
+        let mut h: u64 = 0x9e37_79b9_7f4a_7c15 ^ (d.len() as u64);
+        for v in d {
+            h = (h ^ (*v as u64)).wrapping_mul(0x1000_0000_01b3).rotate_left(23);
+        }
+        Tape { d, i: 0, ext: Some(h) }
+    }
+    /// every draw past the end is 0 (the first choice everywhere)
+    pub fn zero_filled(d: &'a [u16]) -> Self {
+        Tape { d, i: 0, ext: None }
     }
     pub fn next(&mut self) -> u16 {
-        let v = self.d.get(self.i).copied().unwrap_or(0);
+        let v = match self.d.get(self.i) {
+            Some(v) => *v,
+            None => match &mut self.ext {
+                None => 0,
+                Some(st) => {
+                    // splitmix64
+                    *st = st.wrapping_add(0x9e37_79b9_7f4a_7c15);
+                    let mut z = *st;
+                    z = (z ^ (z >> 30)).wrapping_mul(0xbf58_476d_1ce4_e5b9);
+                    z = (z ^ (z >> 27)).wrapping_mul(0x94d0_49bb_1331_11eb);
+                    ((z ^ (z >> 31)) >> 48) as u16
+                }
+            },
+        };
         self.i += 1;
         v
     }
-    /// monotone map onto 0..n (0 when the tape is exhausted)
+    /// monotone map onto 0..n
     pub fn pick(&mut self, n: usize) -> usize {
         if n <= 1 {
             return 0;
@@ -209,7 +238,7 @@ impl<'a> Tape<'a> {
     pub fn range(&mut self, lo: usize, hi_incl: usize) -> usize {
         lo + self.pick(hi_incl - lo + 1)
     }
-    /// true with probability num/den; false when exhausted
+    /// true with probability num/den
     pub fn chance(&mut self, num: usize, den: usize) -> bool {
         self.pick(den) >= den - num
     }
